@@ -770,6 +770,35 @@ struct Cell {
         exit(true);
         return *this;
     }
+    // moving takes the data away: the source is left empty (valid, like a moved-from string), and being moved from is a write
+    // access to the source. A library that forwards or moves one value into two places leaves the second one empty.
+    Cell(Cell&& o) noexcept: magic(MAGIC)
+    {
+        born();
+        o.enter(true);
+        copy_from(o);
+        o.gut();
+        o.exit(true);
+    }
+    Cell& operator=(Cell&& o) noexcept
+    {
+        if (&o == this) return *this;
+        alive_check("move-assign-dst");
+        enter(true);
+        o.enter(true);
+        copy_from(o);
+        o.gut();
+        o.exit(true);
+        exit(true);
+        return *this;
+    }
+    void gut()
+    {
+        n = 0;
+        user_point();
+        for (auto& i : ids) i = 0;
+        chk = 0;
+    }
     ~Cell()
     {
         if (magic != MAGIC) raise_violation("oracle:payload_destroyed_twice_or_corrupt", "{}");
@@ -902,24 +931,38 @@ template<class F>
 struct OneShot {
     F f;
     bool spent = false;
+    mutable bool stolen = false;  // an object was move-constructed from this one: its state is gone
+    explicit OneShot(F fn): f(std::move(fn)) {}
+    OneShot(const OneShot& o): f(o.f), spent(o.spent)
+    {
+        if (o.stolen) violation("oracle:user_callable_copied_after_it_was_moved_from", "{}");
+    }
+    OneShot(OneShot&& o) noexcept: f(std::move(o.f)), spent(o.spent)
+    {
+        if (o.stolen) violation("oracle:user_callable_moved_twice", "{}");
+        o.stolen = true;
+    }
+    OneShot& operator=(const OneShot&) = delete;
     void live() const
     {
         if (spent) violation("oracle:user_callable_invoked_again_after_an_rvalue_invocation_consumed_it", "{}");
+        if (stolen) violation("oracle:user_callable_invoked_after_it_was_moved_from", "{}");
     }
+    // (trailing return types keep the wrapper SFINAE-friendly: is_invocable<OneShot<F>, X> answers what it answers for F)
     template<class... A>
-    decltype(auto) operator()(A&&... a) &
+    auto operator()(A&&... a) & -> decltype(std::declval<F&>()(std::forward<A>(a)...))
     {
         live();
         return f(std::forward<A>(a)...);
     }
     template<class... A>
-    decltype(auto) operator()(A&&... a) const&
+    auto operator()(A&&... a) const& -> decltype(std::declval<const F&>()(std::forward<A>(a)...))
     {
         live();
         return f(std::forward<A>(a)...);
     }
     template<class... A>
-    decltype(auto) operator()(A&&... a) &&
+    auto operator()(A&&... a) && -> decltype(std::declval<F&>()(std::forward<A>(a)...))
     {
         live();
         spent = true;
@@ -929,13 +972,13 @@ struct OneShot {
 template<class F>
 inline OneShot<std::decay_t<F>> one_shot(F&& f)
 {
-    return OneShot<std::decay_t<F>>{std::forward<F>(f)};
+    return OneShot<std::decay_t<F>>(std::forward<F>(f));
 }
 // after the library was handed an lvalue callable: it must not have consumed it (the caller may use it again)
 template<class F>
 inline void still_usable(const OneShot<F>& f)
 {
-    if (f.spent) violation("oracle:library_consumed_a_callable_passed_as_lvalue", "{}");
+    if (f.spent || f.stolen) violation("oracle:library_consumed_a_callable_passed_as_lvalue", "{}");
 }
 
 inline Cell make_value(uint32_t id)
